@@ -949,7 +949,7 @@ def run(ctx):
             size = sum(len(inp) + len(exp) for _, inp, exp in items)
             shard = max(1, min(250, (len(items) * SHARD_BYTES) // max(size, 1)))
             ctx.correspond(g, IMPORTS, "c20_in", "run_c20", items, shard=shard)
-    ctx.extra["exhaustive"] = {"meta_field_combinations": ctx.tier != "quick", "hash_name_value_combinations": True}
+    ctx.extra["exhaustive_families"] = {"meta_field_combinations": ctx.tier != "quick", "hash_name_value_combinations": True}
 
 
 def replay_case(ctx, case):
